@@ -101,9 +101,17 @@ def run(res, tier, seed, shard, nshards):
            ("len16-masked", R.encode(R.TEXT, b"x" * 300, key=b"\x11\x22\x33\x44") + R.encode(R.PING, b"p") + R.encode(R.TEXT, b"after")),
            ("len64", R.encode(R.BINARY, b"\x5a" * 65536) + R.encode(R.TEXT, b"after")),
            ("len64-masked-frag", R.encode(R.BINARY, b"q" * 70001, fin=0, key=b"\x01\x02\x03\x04") + R.encode(R.CONT, b"tail") + R.encode(R.TEXT, b"after"))]
+    # zero / tiny payloads spelled with the long length forms (a sender may not, a receiver meets them all the same), masked and not
+    ext += [("zero-as-len16-masked", bytes([0x81, 0xFE, 0, 0, 9, 8, 7, 6]) + R.encode(R.TEXT, b"hello")),
+            ("zero-as-len64-masked", bytes([0x82, 0xFF] + [0] * 8 + [1, 2, 3, 4]) + R.encode(R.TEXT, b"hello")),
+            ("zero-as-len16", bytes([0x81, 0x7E, 0, 0]) + R.encode(R.TEXT, b"hello")),
+            ("three-as-len64-masked", bytes([0x82, 0xFF] + [0] * 7 + [3, 0, 0, 0, 0]) + b"abc" + R.encode(R.TEXT, b"hello"))]
     for name, st in ext:
         for call in CALLS[:3]:
             jobs.append(("hdr-timeouts", name, st, call))
+    # one payload that arrives in more than 16384 separate reads (a transport that trickles single bytes), a timeout late in it
+    jobs.append(("trickle", "trickle17000", R.encode(R.BINARY, bytes(i % 249 for i in range(17000))) + R.encode(R.TEXT, b"after"), CALLS[0]))
+    jobs.append(("trickle", "trickle33100-masked", R.encode(R.BINARY, bytes(i % 247 for i in range(33100)), key=b"\x05\x06\x07\x08") + R.encode(R.TEXT, b"after"), CALLS[1]))
     big = [("big16385", R.encode(R.BINARY, bytes(i % 251 for i in range(16385))) + R.encode(R.TEXT, b"after")),
            ("big40000-masked", R.encode(R.BINARY, bytes(i % 253 for i in range(40000)), key=b"\x0a\x0b\x0c\x0d") + R.encode(R.PING, b"p") + R.encode(R.TEXT, b"after")),
            ("big65536-frag", R.encode(R.TEXT, b"z" * 65536, fin=0) + R.encode(R.CONT, b"tail") + R.encode(R.TEXT, b"after"))]
@@ -177,6 +185,14 @@ def run(res, tier, seed, shard, nshards):
                         continue
                     if (k + ji) % nshards == shard:
                         one(res, W, st, call, head, {a: 1, b: 1}, None, (name, "hdr-timeout2"))
+            elif job[0] == "trickle":
+                _, name, st, call = job
+                n = len(st)
+                for ti, pos in enumerate([16300, 16390, 16500, 16999, 32760, 32790, 33000]):
+                    if pos >= n - 12 or (ti + ji) % nshards != shard:
+                        continue
+                    one(res, W, st, call, list(range(1, n)), {pos: 1}, None, (name, "trickle-timeout"))
+                    res.count("payloads_in_more_than_16384_reads")
             elif job[0] == "payload-timeouts":
                 # the payload arrives in pieces (cut at and around multiples of the 16384-byte read size and at random places) and
                 # a timeout / would-block strikes before a later piece: nothing read so far may be lost
@@ -215,7 +231,8 @@ def run(res, tier, seed, shard, nshards):
                 for a in range(1, total):
                     k += 1
                     if (k + ji) % nshards == shard:
-                        one(res, W, st, call, None, None, [a], (name, "headcut1"))
+                        # every third run: a server that ends its header lines with a bare LF
+                        one(res, W, st, call, None, None, [a], (name, "headcut1" + ("-lf" if k % 3 == 0 else "")), lf_only=(k % 3 == 0))
                 pairs = itertools.combinations(range(1, total), 2)
                 for a, b in pairs:
                     k += 1
@@ -325,7 +342,7 @@ def two_connections_case(res, W, rng, i):
             return
 
 
-def one(res, W, stream, call, cuts, tplan, head_cuts, tag, eagain=None, pauses=False, tls=False, high_fd=False, half_closed=False):
+def one(res, W, stream, call, cuts, tplan, head_cuts, tag, eagain=None, pauses=False, tls=False, high_fd=False, half_closed=False, lf_only=False):
     name, cf = call
     key = (stream, call)
     if key not in _pred_cache:
@@ -366,7 +383,9 @@ def one(res, W, stream, call, cuts, tplan, head_cuts, tag, eagain=None, pauses=F
             half_closed = False  # the reference model describes the open state; after a close frame the two differ
         if half_closed:
             res.count("runs_in_half_closed_state")
-        obs = H.run_recv_script(stream, script, segs=segs, ending="eof", head_cuts=head_cuts, timeout=5, nonblocking=pauses, tls=tls, half_closed=half_closed)
+        if lf_only:
+            res.count("responses_with_bare_lf_line_ends")
+        obs = H.run_recv_script(stream, script, segs=segs, ending="eof", head_cuts=head_cuts, timeout=5, nonblocking=pauses, tls=tls, half_closed=half_closed, lf_only=lf_only)
     finally:
         net.SimSocket.fd_base = 10
     if tls:
@@ -375,7 +394,7 @@ def one(res, W, stream, call, cuts, tplan, head_cuts, tag, eagain=None, pauses=F
         res.count("nonblocking_runs")
         res.count("wouldblocks_observed", obs["wouldblocks"])
     issues, judged, unj = M.compare(pred, obs)
-    res.case((stream, call, tuple(cuts or ()), tuple(sorted((tplan or {}).items())), tuple(head_cuts or ()), eagain, pauses, tls, high_fd, half_closed),
+    res.case((stream, call, tuple(cuts or ()), tuple(sorted((tplan or {}).items())), tuple(head_cuts or ()), eagain, pauses, tls, high_fd, half_closed, lf_only),
              nontrivial=bool(cuts or tplan or head_cuts))
     res.count("timeouts_injected", ntimeouts)
     res.count("timeouts_observed", obs["timeouts"])
